@@ -719,12 +719,18 @@ def traverse(node):
             continue
 
         child = traversing.child
-        child_id = id(child)
 
-        if child_id in visited:
-            continue
+        # Only expand a shared object or container the first time we see it.
+        # (Leaves are not tracked: None, small numbers and interned strings
+        # are the same object every time they occur.)
+        if isinstance(child, (list, tuple, dict, ParsedObject)):
+            child_id = id(child)
 
-        visited.add(child_id)
+            if child_id in visited:
+                continue
+
+            visited.add(child_id)
+
         stack.append(traversing._replace(is_finished=True))
         yield traversing
 
